@@ -23,6 +23,8 @@
 (*                  filter picks vcr_vcs for application/vc+json and       *)
 (*                  vcr_revocations for application/ld+json;type=revocation*)
 (*   Retry(t,f)     an in-process retry attempt of a job in state "retry"  *)
+(*                  (the first one follows the failed call at once, in a   *)
+(*                  goroutine of its own; the retry budget is Dag.tla's)   *)
 (*   Restart        orderly stop and start on the same data directory:     *)
 (*                  stores, trust file and job shelves are re-opened       *)
 (*   Replay(t,f)    Notifier.Run delivers a job that was left on the shelf *)
@@ -186,8 +188,9 @@ Deliver(t, f) ==
     /\ Handle(t, f, "Deliver")
     /\ UNCHANGED <<trust, keys, ctxUp, replay, restarts, reprocs, tops, pcfg, pubs>>
 
+\* (the retry goroutine of one notifier may run while the start-up replay of the other one is still busy)
 Retry(t, f) ==
-    /\ Running /\ jobs[t] = "retry" /\ f \in FaultChoice(t)
+    /\ Mode = "recv" /\ t \notin replay /\ jobs[t] = "retry" /\ f \in FaultChoice(t)
     /\ Handle(t, f, "Retry")
     /\ UNCHANGED <<trust, keys, ctxUp, replay, restarts, reprocs, tops, pcfg, pubs>>
 
